@@ -9,7 +9,7 @@ CONSTANTS
   FIXED = TRUE
   ERRS = {FALSE}
   TTL = TRUE
-  CLEAR = FALSE
+  CLEAR = TRUE
 INVARIANT QInv
 INVARIANT PNoCrash
 PROPERTY Refines
